@@ -49,6 +49,7 @@ def meta(tier, seed):
                   "zero variance -> 1), an arm without data sees the raw query",
         "bounds": {"rows_max": 3 if tier == "quick" else 4, "row_alphabet": 4 if tier == "quick" else 5, "d": [1, 2, 3], "lambdas": LAMBDAS,
                    "policies": [p[0] for p in POLICIES], "query_rows": [1, 2, 3],
+                   "extreme": "features of magnitude 1e5 next to 0/1 flags; l2_lambda = 1e-6 with 2 rows in 3 features (tolerance 1e-4)",
                    "small_units": "histories whose first feature varies by ~3e-4 around 0.02 (all orders of 3-5 of 5 rows, single fit)",
                    "long_history": "one 703-row single-fit history per (policy, lambda, scale, d)",
                    "variants": ["no arm change", "add_arm(3) at the end", "add_arm(3) after the first call, last row relabelled to arm 3"]},
@@ -157,13 +158,14 @@ def build(cfg, history):
     return mab
 
 
-def judge(mab, history, q, cls, alpha, lam, scale):
+def judge(mab, history, q, cls, alpha, lam, scale, tol=None):
     out = ops.call(copy.deepcopy(mab), "predict_expectations", q)
     arms, rows = per_arm_rows(history)
     if ops.is_exc(out):
         return ["predict_expectations raised %s" % out["__exc__"]], None
     obs = [out] if len(q) == 1 else out
-    tol = 1e-6 if (cls == "LinTS" or scale) else 1e-9
+    if tol is None:
+        tol = 1e-6 if (cls == "LinTS" or scale) else 1e-9
     msgs = []
     for i, (row, o) in enumerate(zip(q, obs)):
         e = ops.expectations_dict(o)
@@ -241,6 +243,35 @@ def run_shard(shard):
             if msgs:
                 acc.violation("%s lam=%s scale=%s d=%d m=2 small-units allobs" % (shard["p"], lam, scale, d),
                               {"cfg": cfg, "history": hist, "query": q}, msgs[0])
+    # extreme but valid settings (relative tolerance 1e-4: the condition numbers, up to ~1e11, are ones float64 inverts
+    # to better than that): features of very different magnitude; a tiny penalty with fewer rows than features
+    if not scale and d >= 2:
+        wide = [(1, [1e5 * (1 + (i % 4)), float(i % 2)] + [1.0] * (d - 2), float((i * 3) % 5)) for i in range(8)] + \
+               [(2, [2e5, 1.0] + [0.0] * (d - 2), 1.0)]
+        hist = [["fit", [r[0] for r in wide[:5]], [r[2] for r in wide[:5]], [list(r[1]) for r in wide[:5]]],
+                ["partial_fit", [r[0] for r in wide[5:]], [r[2] for r in wide[5:]], [list(r[1]) for r in wide[5:]]]]
+        mab = build(cfg, hist)
+        q = [[1.5e5, 1.0] + [1.0] * (d - 2), [1e5, 0.0] + [0.0] * (d - 2)]
+        msgs, out = judge(mab, hist, q, cls, alpha, lam, scale, tol=1e-4)
+        acc.traces += 1
+        acc.case((shard["p"], lam, scale, d, "wide-magnitude"))
+        acc.state((shard["p"], lam, scale, d, "wide-magnitude"))
+        if msgs:
+            acc.violation("%s lam=%s scale=%s d=%d m=2 wide-magnitude allobs" % (shard["p"], lam, scale, d),
+                          {"cfg": cfg, "history": hist, "query": q, "tol": 1e-4}, msgs[0])
+        if lam == 0.5 and d == 3:
+            tiny_cfg = copy.deepcopy(cfg)
+            tiny_cfg["lp"] = [cls, dict(kw, l2_lambda=1e-6, scale=False)]
+            hist = [["fit", [1, 1, 2], [1.0, 2.0, 0.5], [[10.0, 20.0, 5.0], [12.0, 18.0, 7.0], [1.0, 0.0, 0.0]]]]
+            mab = build(tiny_cfg, hist)
+            q = [[10.0, 20.0, 5.0], [1.0, 1.0, 30.0]]
+            msgs, out = judge(mab, hist, q, cls, alpha, 1e-6, False, tol=1e-4)
+            acc.traces += 1
+            acc.case((shard["p"], "tiny-lambda"))
+            acc.state((shard["p"], "tiny-lambda"))
+            if msgs:
+                acc.violation("%s lam=1e-06 scale=False d=3 m=2 tiny-lambda allobs" % shard["p"],
+                              {"cfg": tiny_cfg, "history": hist, "query": q, "tol": 1e-4}, msgs[0])
     # one long history per shard
     hist = long_history(d)
     mab = build(cfg, hist)
@@ -259,5 +290,9 @@ def run_shard(shard):
 def replay(w):
     cfg = w["cfg"]
     cls, kw = cfg["lp"]
+    if w.get("tol"):
+        m_, _ = judge(build(cfg, w["history"]), w["history"], w["query"], cls, kw.get("alpha", 0), kw.get("l2_lambda", 1),
+                      kw.get("scale", False), tol=w["tol"])
+        return m_
     msgs, _ = judge(build(cfg, w["history"]), w["history"], w["query"], cls, kw.get("alpha", 0), kw.get("l2_lambda", 1), kw.get("scale", False))
     return msgs
